@@ -4,5 +4,6 @@
         parsed_data.aliases.sort();
         parsed_data.consts.sort();
 
-        // put back our import types for file generation.
+        // put back our import types for file generation, under the names the types are
+        // defined with: the other module lists a renamed type under its serde name.
         
